@@ -41,6 +41,7 @@ COQ_TY = {
   'unit': 'unit', 'bool': 'bool', 'row': 'Z', 'key': 'key', 'okey': '(option key)', 'okeys': '(list (option key))',
   'keyset': '(list key)', 'keylist': '(list key)', 'vals': '(list val)', 'spec': 'sortspec', 'str': 'str',
   'strs': '(list str)', 'rows': '(list Z)', 'orows': '(option (list Z))', 'ref': 'binref', 'sarg': 'sarg',
+  'sign': 'bool', 'signs': '(list bool)', 'pos': '(Z * Z * str)', 'Z': 'Z',
   'colspec': 'colspec', 'oval': '(option val)', 'val': 'val', 'vallist': '(list val)',
   'K': 'K', 'A': 'A', 'oA': '(option A)', 'As': '(list A)', 'oAoA': '(option A * option A)', 'ocref': '(option K)',
   'cref': 'K', 'binA': '(bin A)', 'cont': '(bin A)',
@@ -120,6 +121,8 @@ class Tr(object):
         return [], ('true' if n.value else 'false'), 'bool'
       if isinstance(n.value, str):
         return [], strlit(n.value), 'str'
+      if isinstance(n.value, int):
+        return [], '(%d)' % n.value, 'Z'
       fail(n, 'constant')
     if isinstance(n, ast.Tuple):
       if want == 'oAoA' and len(n.elts) == 2:
@@ -136,6 +139,8 @@ class Tr(object):
         return binds, '[' + '; '.join(p[1] for p in parts) + ']', 'strs'
       if tys <= {'A'}:
         return binds, '[' + '; '.join(p[1] for p in parts) + ']', 'As'
+      if [p[2] for p in parts] == ['Z', 'Z', 'str']:
+        return binds, '(%s, %s, %s)' % tuple(p[1] for p in parts), 'pos'
       if tys <= {'key', 'okey'}:
         return binds, '[' + '; '.join(self.coerce(p[1], p[2], 'okey', n) for p in parts) + ']', 'okeys'
       fail(n, 'tuple of %s' % sorted(tys))
@@ -222,6 +227,23 @@ class Tr(object):
         else:
           fail(n, 'identity test on %s' % ty)
         return [], ('(%s)' % s if isinstance(op, ast.Is) else '(negb (%s))' % s), 'bool'
+      if isinstance(op, ast.Lt):
+        (l, lt), (r, rt) = self.pure(a, env), self.pure(b, env)
+        if lt == rt == 'val':
+          v = self.fresh('v')
+          return [(v, '(py_lt_m %s %s)' % (l, r))], v, 'bool'
+        if lt == rt == 'pos':
+          return [], '(pos_ltb %s %s)' % (l, r), 'bool'
+        if lt == rt == 'row':
+          return [], '(Z.ltb %s %s)' % (l, r), 'bool'
+        fail(n, '< on %s, %s' % (lt, rt))
+      if (isinstance(op, ast.Eq) and isinstance(a, ast.Name) and env.get(a.id, (None, None))[1] == 'sign'):
+        # sign is 1 (ascending) or -1 (descending): modelled as the flag "ascending"
+        if isinstance(b, ast.Constant) and b.value == 1:
+          return [], env[a.id][0], 'bool'
+        if (isinstance(b, ast.UnaryOp) and isinstance(b.op, ast.USub) and isinstance(b.operand, ast.Constant) and b.operand.value == 1):
+          return [], '(negb %s)' % env[a.id][0], 'bool'
+        fail(n, 'test of sign')
       if isinstance(op, (ast.Eq, ast.NotEq)):
         (l, lt), (r, rt) = self.pure(a, env), self.pure(b, env)
         if {lt, rt} <= {'key', 'okey'}:
@@ -281,6 +303,10 @@ class Tr(object):
       return bc + [(v, m)], v, ty1
     if isinstance(n, ast.Subscript):
       return self.subscript(n, env)
+    if (isinstance(n, ast.Attribute) and n.attr == '__name__' and isinstance(n.value, ast.Call)
+        and isinstance(n.value.func, ast.Name) and n.value.func.id == 'type' and len(n.value.args) == 1):
+      t, ty = self.pure(n.value.args[0], env, 'val')
+      return [], '(type_name %s)' % t, 'str'
     if isinstance(n, ast.Attribute):
       key = ast.unparse(n)
       if key in env:
@@ -408,6 +434,9 @@ class Tr(object):
       if st == pt == 'str':
         return [], '(py_startswith %s %s)' % (s, p), 'bool'
       fail(n, 'startswith')
+    if (f == 'isinstance' and len(n.args) == 2 and isinstance(n.args[1], ast.Name) and n.args[1].id == 'Number'):
+      t, ty = self.pure(n.args[0], env, 'val')
+      return [], '(is_number %s)' % t, 'bool'
     if f == 'LookupSet' and not n.args and not n.keywords:
       return [], 'RefFresh', 'ref'
     if (f == 'LookupSet' and self.fn.kd and len(n.args) == 1 and isinstance(n.args[0], ast.List) and len(n.args[0].elts) == 1
@@ -483,6 +512,11 @@ class Tr(object):
     if isinstance(s, ast.Pass):
       return cont(env)
     if isinstance(s, ast.Return):
+      if ctx.get('ret_opt'):
+        binds, t, ty = self.expr(s.value, env)
+        if ty != self.fn.ret:
+          fail(s, 'returns %s, the binding says %s' % (ty, self.fn.ret))
+        return self.seq(binds, '(ret (Some %s))' % t)
       if ctx.get('loop') or ctx.get('try_'):
         fail(s, 'return inside a loop or a try body')
       return self.ret(s, env)
@@ -564,8 +598,27 @@ class Tr(object):
     if isinstance(s, ast.If):
       return self.if_(s, rest, env, k, ctx)
     if isinstance(s, ast.For):
-      if s.orelse or not isinstance(s.target, ast.Name):
-        fail(s, 'for')
+      if s.orelse:
+        fail(s, 'for-else')
+      if (isinstance(s.iter, ast.Call) and isinstance(s.iter.func, ast.Name) and s.iter.func.id == 'zip' and len(s.iter.args) == 3
+          and not ctx.get('loop')):
+        parts = [self.pure(a, env) for a in s.iter.args]
+        if [p[1] for p in parts] != ['vals', 'vals', 'signs']:
+          fail(s, 'zip of %s' % [p[1] for p in parts])
+        tg = s.target
+        if not (isinstance(tg, ast.Tuple) and len(tg.elts) == 3 and isinstance(tg.elts[0], ast.Name) and isinstance(tg.elts[1], ast.Name)
+                and isinstance(tg.elts[2], ast.Tuple) and len(tg.elts[2].elts) == 2
+                and all(isinstance(x, ast.Name) for x in tg.elts[2].elts)):
+          fail(s, 'loop target')
+        an, bn, sn = tg.elts[0].id, tg.elts[1].id, tg.elts[2].elts[1].id
+        env2 = dict(env)
+        env2[an], env2[bn], env2[sn] = (an + '_', 'val'), (bn + '_', 'val'), (sn + '_', 'sign')
+        body = self.block(s.body, env2, lambda e: '(ret None)', dict(ctx, loop=True, ret_opt=True))
+        r = self.fresh('r')
+        return ("(bind (for_first (zip3 %s %s %s) (fun '(%s_, %s_, %s_) => %s)) (fun %s => match %s with Some %s => ret %s | None => %s end))"
+                % (parts[0][0], parts[1][0], parts[2][0], an, bn, sn, body, r, r, r, r, cont(env)))
+      if not isinstance(s.target, ast.Name):
+        fail(s, 'for target')
       binds, t, ty = self.expr(s.iter, env)
       if ty == 'colcells':
         v, c = s.target.id + '_', 'cell_of_' + s.target.id + '_'
@@ -597,6 +650,17 @@ class Tr(object):
         guard = {'TypeError': 'TypeErr', 'ValueError': 'ValueErr'}[h.type.id]
       else:
         fail(s, 'except clause')
+      if ctx.get('ret_opt'):
+        if self.assigned(s.body):
+          fail(s, 'a try with returns must not assign')
+        body = self.block(s.body, env, lambda e: '(ret None)', dict(ctx, try_=True))
+        r = self.fresh('r')
+        ev = self.fresh('exn')
+        hbody = self.block(h.body, env, cont, dict(ctx, handler=ev, try_=False))
+        if guard:
+          hbody = '(match %s with %s => %s | _ => raise %s end)' % (ev, guard, hbody, ev)
+        return '(try_with %s (fun %s => match %s with Some _ => ret %s | None => %s end) (fun %s => %s))' % (
+          body, r, r, r, cont(env), ev, hbody)
       outs = [x for x in self.assigned(s.body)]
       body_env = {}
       def k_try(e):
@@ -1085,7 +1149,13 @@ def generate(grist):
   emit(Fn('gen_reset_sorted_versions', lookup_py, 'LookupMapColumn._reset_sorted_versions',
           [('rec', REC), ('sort_spec', 'spec')], 'keyset', 'lmap', col_calls, extra='(cols_ : list colspec)',
           self_attrs={'rec._row_id': ('row_', 'row')}))
-  header = ('(* GENERATED by /verif/harness/lk2v.py from %s (table.py, twowaymap.py, lookup.py) -- do not edit;\n'
+  sk_py = os.path.join(grist, 'sort_key.py')
+  emit(Fn('gen_sortkey_lt', sk_py, 'make_sort_key.SortKey.__lt__', [('other', 'ghost')], 'bool', 'unit', {},
+          extra='(va_ vb_ : list val) (ascs_ : list bool) (ra_ rb_ : Z)',
+          self_attrs={'self.values': ('va_', 'vals'), 'other.values': ('vb_', 'vals'),
+                      'self.row_id': ('ra_', 'row'), 'other.row_id': ('rb_', 'row')},
+          env_extra={'col_sort_spec': ('ascs_', 'signs')}))
+  header = ('(* GENERATED by /verif/harness/lk2v.py from %s (table.py, twowaymap.py, lookup.py, sort_key.py) -- do not edit;\n'
             '   regenerated on every run. *)\nFrom Coq Require Import ZArith List Bool.\nImport ListNotations.\n'
             'Require Import Grist.Lib.LkMonad Grist.Model.Lookup Grist.Model.LookupRt.\nOpen Scope Z_scope.\n\n' % grist)
   return header + '\n'.join(parts)
